@@ -21,8 +21,8 @@ def accept_xml(c):
   for f in c["flags"]:
     kind, name = f.split("_", 1)
     fl.append(f'{name}="{"disable" if kind == "dis" else "enable"}"')
-  n = 21 if c["bignv"] else 2   # 21 bodies x 3 dofs = 63 > 60
-  bodies = "".join(f'<body pos="{0.4 * i} 0 0.5"><joint type="ball"/><geom type="capsule" size="0.03 0.1"/></body>' for i in range(n))
+  n = {"small": 2, "mid": 15, "big": 21}[c["size"]]   # ball joints: 6, 45 (between the two sparsity thresholds), 63 dofs
+  bodies = "".join(f'<body pos="{0.4 * i} 0 {0.09 if i % 2 == 0 else 0.5}"><joint type="ball" limited="true" range="0 0.5"/><geom type="capsule" size="0.03 0.1"/></body>' for i in range(n))
   return (f'<mujoco><option solver="{c["solver"]}" integrator="{c["integrator"]}" noslip_iterations="{c["noslip"]}" jacobian="{c["jacobian"]}" cone="{c["cone"]}">'
           f'<flag {" ".join(fl)}/></option><worldbody><geom type="plane" size="9 9 .1"/>{bodies}</worldbody></mujoco>')
 
@@ -53,6 +53,29 @@ def _accept_chunk(cfgs):
       out.append(({"what": "put_model acceptance differs from PutModel.tla", "accepted_by_code": got}, f"spec says accepted={rec['accepted']} for {c}", where))
       continue
     if got:
+      # the representation is the spec's on both sides
+      if mjm.nv != rec["nv"] or bool(m.is_sparse) != rec["sparse_device"] or bool(mujoco.mj_isSparse(mjm)) != rec["sparse_host"]:
+        out.append(("MACHINERY", f"PutModel.tla sizes/sparsity: nv {mjm.nv} device sparse {m.is_sparse} host sparse {mujoco.mj_isSparse(mjm)} vs spec {rec}", where))
+        continue
+      # constraint rows survive put_data -> get_data_into whatever the two representations are
+      mjd = mujoco.MjData(mjm)
+      mjd.qpos[:] = mjm.qpos0
+      for j in range(mjm.njnt):
+        mjd.qpos[mjm.jnt_qposadr[j] : mjm.jnt_qposadr[j] + 4] = [0.94, 0.2, 0.2, 0.18]   # beyond the ball limit
+      mujoco.mj_forward(mjm, mjd)
+      if mjd.nefc:
+        dd = mjw.put_data(mjm, mjd, nworld=2)
+        back = mujoco.MjData(mjm)
+        bad = None
+        for w in range(2):
+          mjw.get_data_into(back, mjm, dd, world_id=w)
+          if back.nefc != mjd.nefc:
+            bad = f"world {w}: nefc {back.nefc} vs {mjd.nefc}"
+          elif np.abs(efc.dense_J(mjm, back) - efc.dense_J(mjm, mjd)).max() > 1e-5:
+            bad = f"world {w}: efc_J differs by {np.abs(efc.dense_J(mjm, back) - efc.dense_J(mjm, mjd)).max():.3g} ({mjd.nefc} rows)"
+        if bad:
+          out.append(({"what": "constraint Jacobian does not survive put_data -> get_data_into", "size": c["size"], "jacobian": c["jacobian"]}, bad, where))
+          continue
       # an accepted model must also run
       d = mjw.make_data(mjm, nworld=1)
       mjw.step(m, d)
@@ -144,6 +167,8 @@ def run(ctx: core.Ctx):
   CH = max(1, len(cfgs) // 14 + 1)
   for res, chunk in zip(core.pmap(_accept_chunk, [cfgs[i : i + CH] for i in range(0, len(cfgs), CH)], nproc=14), [cfgs[i : i + CH] for i in range(0, len(cfgs), CH)]):
     for (key, msg, scen), rec in zip(res, chunk):
+      if key == "MACHINERY":
+        raise RuntimeError(msg)
       if key == "skip":
         ctx.skip("skip:" + msg.split(":")[0])
         continue
